@@ -3,7 +3,7 @@ package amsim
 import (
 	"encoding/json"
 	"fmt"
-		"time"
+	"time"
 )
 
 // C14 — updates of one alert are applied to its groups in submission order.
@@ -282,9 +282,9 @@ func init() {
 			}
 			return len(c14Cases)
 		},
-		Rule: "case n < 720: the n-th element of {k=2,3} x {refresh,resolve,refire}^k x all k! release orders of the ingestion workers x {2,3,4,8} workers (complete enumeration); beyond that sampled k=4..5 with the group-creating update optionally inside the burst. Non-trivial: the settled GET /alerts/groups was answered and at least one oracle clause was evaluated; distinct: by abstract trace hash.",
-		Real: []string{"app.New wiring", "api/v2 handlers", "provider/mem", "dispatch (ingestion workers, aggregation groups)", "notify pipeline", "webhook notifier + net/http client"},
-		Stub: []string{"clock (synctest)", "receiver endpoint (net.Pipe + scripted http.Server)", "worker scheduling decided by hold rules at verifhook.Yield(dispatch.worker.recv)"},
+		Rule:        "case n < 720: the n-th element of {k=2,3} x {refresh,resolve,refire}^k x all k! release orders of the ingestion workers x {2,3,4,8} workers (complete enumeration); beyond that sampled k=4..5 with the group-creating update optionally inside the burst. Non-trivial: the settled GET /alerts/groups was answered and at least one oracle clause was evaluated; distinct: by abstract trace hash.",
+		Real:        []string{"app.New wiring", "api/v2 handlers", "provider/mem", "dispatch (ingestion workers, aggregation groups)", "notify pipeline", "webhook notifier + net/http client"},
+		Stub:        []string{"clock (synctest)", "receiver endpoint (net.Pipe + scripted http.Server)", "worker scheduling decided by hold rules at verifhook.Yield(dispatch.worker.recv)"},
 		Assumptions: []string{"the release order of ingestion workers is imposed by content-keyed delays at one yield point between channel receive and routeAlert; interleavings inside routeAlert are whatever one P produces"},
 	})
 }
